@@ -1,6 +1,8 @@
 import ComposeVerif.Lemmas.C02StageNormalize
 import ComposeVerif.Lemmas.C02StageWalk
 import ComposeVerif.Lemmas.C02StageDefaults
+import ComposeVerif.Lemmas.C02StageInterp
+import ComposeVerif.Lemmas.C02StagePaths
 /-!
 # C02 — `stage_perm`: the loader stages do not depend on the order in which Go ranges over mappings
 
@@ -90,6 +92,30 @@ theorem setDefaults_stage_perm (tbl : List (List String × String)) (p : TPath) 
 theorem setDefaultValues_stage_perm {d d' : KVs} (h : CV.Deep.MEqv d d') (wd : CV.Deep.MWF d) (wd' : CV.Deep.MWF d') :
     DRel CV.Deep.Eqv (CV.C11.setDefaultValues CV.Gen.defaultValues d) (CV.C11.setDefaultValues CV.Gen.defaultValues d') :=
   setDefaults_eqv _ _ (CV.Deep.Eqv.map_iff.mpr h) (CV.Deep.WF.map_iff.mpr wd) (CV.Deep.WF.map_iff.mpr wd')
+
+/-- **`interpolation.Interpolate` as a whole tree walk** (C08's model `CV.Interp.interp`, any cast table, any
+environment): trees equivalent up to the order of mapping entries at any depth interpolate to equivalent trees, or both
+interpolations fail (which variable / cast error is reported first may depend on the order) -/
+theorem interpolate_stage_perm (c : CV.Interp.Cfg) (p : TPath) {v w : Val}
+    (h : CV.Deep.Eqv v w) (wv : CV.Deep.WF v) (ww : CV.Deep.WF w) :
+    ORel CV.Deep.Eqv (optI (CV.Interp.interp c p v)) (optI (CV.Interp.interp c p w)) := interp_eqv c p h wv ww
+
+/-- **`paths.ResolveRelativePaths` as a whole tree walk** (C12's model `CV.Paths.walk`, any table and configuration, all
+seven resolvers): trees equivalent up to the order of mapping entries at any depth resolve to equivalent trees, or both
+walks fail -/
+theorem resolvePaths_stage_perm (t : CV.Paths.Table) (cfg : CV.Paths.Cfg) (p : TPath) {v w : Val}
+    (h : CV.Deep.Eqv v w) (wv : CV.Deep.WF v) (ww : CV.Deep.WF w) :
+    PRel CV.Deep.Eqv (CV.Paths.walk t cfg p v) (CV.Paths.walk t cfg p w) := walk_eqv t cfg p h wv ww
+
+/-- in particular for `ResolveRelativePaths` itself, on the regenerated resolver table -/
+theorem resolve_stage_perm (cfg : CV.Paths.Cfg) {v w : Val} (h : CV.Deep.Eqv v w) (wv : CV.Deep.WF v) (ww : CV.Deep.WF w) :
+    PRel CV.Deep.Eqv (CV.Paths.resolve cfg v) (CV.Paths.resolve cfg w) := walk_eqv _ cfg _ h wv ww
+
+/-- the walker loop for recursive calls that respect the equivalence (the core of the whole-tree theorems) -/
+theorem walker_loop_deep (g g' : String → Val → Option Val) {a b : KVs} (hm : CV.Deep.MEqv a b)
+    (wa : CV.Deep.MWF a) (wb : CV.Deep.MWF b)
+    (hg : ∀ k x y, lookup k a = some x → lookup k b = some y → ORel CV.Deep.Eqv (g k x) (g' k y)) :
+    ORel CV.Deep.MEqv (travOpt g a) (travOpt g' b) := travOpt_meqv g g' hm wa wb hg
 
 /-- the shared loop shape, for any recursive call `g` -/
 theorem walker_loop_perm (g : String → Val → Option Val) {m m' : KVs} (hn : (keys m).Nodup) (hp : m'.Perm m) :
